@@ -6,6 +6,7 @@ import SeqIoModel.Model.Serde
 import SeqIoModel.Model.History
 import SeqIoModel.Model.HistoryFq
 import SeqIoModel.Model.ParallelCheck
+import SeqIoModel.Model.Alloc
 /-!
 # Model driver: line protocol
 
@@ -551,8 +552,89 @@ def check (inp : List UInt8) (cap : Nat) (pol : Pol) (script : List ReadEv) (chu
 
 end FqHist
 
+/-! ## allocation counts (`A` cases): ghost capacities threaded through the history -/
+
+namespace AllocDrv
+open Alloc
+
+structure G where
+  seqCap : Cap := { lb := 1 }      -- `Vec::with_capacity(1)` in `fasta::Reader::with_capacity`
+  sets : List SetCaps := [{}, {}, {}]
+
+def cntStr : Cnt → String
+  | some n => s!"@{n}"
+  | none => "@?"
+
+/-- `RecordSet::buf_capacity()` after a set operation -/
+def capStr (g : List SetCaps) (op : Op) : String :=
+  let j? : Option Nat := match op with
+    | .set j | .exact j _ | .shrink j => some j
+    | _ => none
+  match j? with
+  | none => ""
+  | some j =>
+    match g[j]? with
+    | some sc => if sc.buf.exact then s!"^{sc.buf.lb}" else "^?"
+    | none => "^?"
+
+/-- the count of a call is only claimed when it returned a record, a batch, the end or `Ok(())` and made no
+policy request: error values own heap data (ids, boxed I/O errors), `reserve` of the buffer is buffer_redux's -/
+def claimed (tok : String) (grew : Bool) (c : Cnt) : Cnt :=
+  if grew || tok.startsWith "E:" || tok == "PANIC" || tok == "HANG" || tok == "bad-op" then none else c
+
+def faStep (acc : Fa.St × G × List String) (op : Op) : Fa.St × G × List String :=
+  let (s, g, outs) := acc
+  let (s', x) := Fa.step s op
+  if x = "" then (s', g, outs) else
+  let grew := s'.r.log.length ≠ s.r.log.length
+  let sfx := if grew then s!"#{s'.r.log.length}" else ""
+  let (g', c) : G × Cnt :=
+    match op with
+    | .next | .seekSlot _ | .seekTo _ _ =>
+      let r := Alloc.Fa.readerStep g.seqCap s'.r
+      ({ g with seqCap := r.1 }, if x = "K?" then none else r.2)
+    | .owned | .ownedJson =>
+      let r := Alloc.Fa.readerStep g.seqCap s'.r
+      ({ g with seqCap := r.1 }, none)
+    | .set j | .exact j _ =>
+      match g.sets[j]?, s'.sets[j]? with
+      | some sc, some rs' =>
+        let r := Alloc.Fa.setStep g.seqCap sc rs' s'.r (x.startsWith "S")
+        ({ seqCap := r.1, sets := g.sets.set j r.2.1 }, r.2.2)
+      | _, _ => (g, none)
+    | .shrink j =>
+      match g.sets[j]?, s'.sets[j]? with
+      | some sc, some rs' => ({ g with sets := g.sets.set j (shrinkStep sc rs'.buffer.length) }, none)
+      | _, _ => (g, none)
+    | _ => (g, none)
+  (s', g', (x ++ sfx ++ cntStr (claimed x grew c) ++ capStr g'.sets op) :: outs)
+
+def fqStep (acc : Fq.St × G × List String) (op : Op) : Fq.St × G × List String :=
+  let (s, g, outs) := acc
+  let (s', x) := Fq.step s op
+  if x = "" then (s', g, outs) else
+  let grew := s'.r.log.length ≠ s.r.log.length
+  let sfx := if grew then s!"#{s'.r.log.length}" else ""
+  let (g', c) : G × Cnt :=
+    match op with
+    | .next | .seekSlot _ | .seekTo _ _ => (g, if x = "K?" then none else some 0)
+    | .set j | .exact j _ =>
+      match g.sets[j]?, s'.sets[j]? with
+      | some sc, some rs' =>
+        let r := Alloc.Fq.setStep sc rs' (x.startsWith "S") (x.startsWith "E:" || x == "PANIC" || x == "HANG")
+        ({ g with sets := g.sets.set j r.1 }, r.2)
+      | _, _ => (g, none)
+    | .shrink j =>
+      match g.sets[j]?, s'.sets[j]? with
+      | some sc, some rs' => ({ g with sets := g.sets.set j (shrinkStep sc rs'.buffer.length) }, none)
+      | _, _ => (g, none)
+    | _ => (g, none)
+  (s', g', (x ++ sfx ++ cntStr (claimed x grew c) ++ capStr g'.sets op) :: outs)
+
+end AllocDrv
+
 /-- `R <fmt> <cap> <pol> <chunk> <script> <seekfails> <inputhex> <ops>` -/
-def runReaderCase (toks : List String) : Option (String × String) :=
+def runReaderCase (toks : List String) (alloc : Bool := false) : Option (String × String) :=
   match toks with
   | [fmt, cap, pol, chunk, script, sf, inp, ops] => do
     let cap ← cap.toNat?
@@ -564,13 +646,21 @@ def runReaderCase (toks : List String) : Option (String × String) :=
     let ops ← parseList ops "," parseOp
     if fmt = "fa" then
       let r := Fasta.mkReader inp cap pol.toPol script chunk sf
-      let (s, outs) := runOps Fa.step (fun s => s.r.log.length) ({ r := r } : Fa.St) ops
-      let hist := if sf.isEmpty && !s.dead then FaHist.check inp cap pol.toPol script chunk ops outs.reverse else ""
+      let (s, outs) : Fa.St × List String :=
+        if alloc then
+          let r3 := ops.foldl AllocDrv.faStep (({ r := r } : Fa.St), ({} : AllocDrv.G), [])
+          (r3.1, r3.2.2)
+        else runOps Fa.step (fun s => s.r.log.length) ({ r := r } : Fa.St) ops
+      let hist := if alloc then "" else if sf.isEmpty && !s.dead then FaHist.check inp cap pol.toPol script chunk ops outs.reverse else ""
       some (";".intercalate outs.reverse ++ " L=" ++ logStr s.r.log, Fa.specStr inp ++ hist)
     else if fmt = "fq" then
       let r := Fastq.mkReader inp cap pol.toPol script chunk sf
-      let (s, outs) := runOps Fq.step (fun s => s.r.log.length) ({ r := r } : Fq.St) ops
-      let hist := if !s.dead then FqHist.check inp cap pol.toPol script chunk sf ops outs.reverse else ""
+      let (s, outs) : Fq.St × List String :=
+        if alloc then
+          let r3 := ops.foldl AllocDrv.fqStep (({ r := r } : Fq.St), ({} : AllocDrv.G), [])
+          (r3.1, r3.2.2)
+        else runOps Fq.step (fun s => s.r.log.length) ({ r := r } : Fq.St) ops
+      let hist := if alloc then "" else if !s.dead then FqHist.check inp cap pol.toPol script chunk sf ops outs.reverse else ""
       some (";".intercalate outs.reverse ++ " L=" ++ logStr s.r.log, Fq.specStr inp ++ hist)
     else none
   | _ => none
@@ -725,7 +815,7 @@ def handleIter (toks : List String) : String :=
         let ow := String.join (List.replicate n "S" ++ List.replicate 3 "N")
         ",".intercalate run.2 ++ "|er=" ++ ",".intercalate er ++ "|ea=" ++ ",".intercalate ea ++
           "|rv=" ++ ",".intercalate rv ++ "|zp=" ++ ",".intercalate zp ++ s!"|sk={sk}|ct={n}" ++
-          "|rs=" ++ sets ++ "|rq=" ++ sets ++ "|ow=" ++ ow ++ ow
+          "|rs=" ++ sets ++ "|rq=" ++ sets ++ "|ow=" ++ ow ++ ow ++ ow ++ ow
       | _ => "PANIC"
   | _ => "bad-case"
 
@@ -737,7 +827,7 @@ def handle (line : String) : List String :=
     | some b => ["M skip", "S " ++ (if fmt = "fa" then Fa.specStr b else Fq.specStr b)]
     | none => ["M bad-case"]
   | "A" :: toks =>
-    match runReaderCase toks with
+    match runReaderCase toks true with
     | some (m, s) => ["M " ++ m, "S " ++ s]
     | none => ["M bad-case"]
   | "R" :: toks =>
@@ -745,6 +835,14 @@ def handle (line : String) : List String :=
     | some (m, s) => ["M " ++ m, "S " ++ s]
     | none => ["M bad-case"]
   | "W" :: toks => ["M " ++ handleWrite toks]
+  | ["Q", pol, cur] =>
+    -- a built-in policy asked directly with one capacity
+    match parsePol pol, cur.toNat? with
+    | some p, some c =>
+      match (p.toPol.growTo c).1 with
+      | some n => [s!"M {n}"]
+      | none => ["M x"]
+    | _, _ => ["M bad-case"]
   | "I" :: toks => ["M " ++ handleIter toks]
   | "X" :: toks => ["M " ++ handlePar toks]
   | "Z" :: _ => ["M ok"]
@@ -757,7 +855,7 @@ def handle (line : String) : List String :=
 partial def loop (h : IO.FS.Stream) (out : IO.FS.Stream) : IO Unit := do
   let line ← h.getLine
   if line.isEmpty then return ()
-  if line.startsWith "R " || line.startsWith "A " || line.startsWith "F " || line.startsWith "I " || line.startsWith "W " || line.startsWith "X " || line.startsWith "Y " || line.startsWith "Z " then
+  if line.startsWith "R " || line.startsWith "A " || line.startsWith "F " || line.startsWith "I " || line.startsWith "W " || line.startsWith "Q " || line.startsWith "X " || line.startsWith "Y " || line.startsWith "Z " then
     for l in handle line do
       out.putStrLn l
   loop h out
